@@ -68,3 +68,13 @@ package jet
 //@   requires r != nil
 //@   modifies r.hasMore
 //@   ensures [map-ends-when-iterator-exhausted] end == !old(r.hasMore)
+
+// the package's variable initialisers: which kinds of value have a built-in ranger (C05: slices, arrays, maps and
+// channels are rangeable)
+//@ func init
+//@   props C05
+//@   modifies *
+//@   anypanic
+//@   nocrash
+//@   check [slices-arrays-maps-and-channels-have-a-ranger] {C05} has(poolsByKind, 23) && has(poolsByKind, 17) && has(poolsByKind, 21) && has(poolsByKind, 18)
+//@   check [the-rangers-pools-exist] {C05} poolsByKind[23] != nil && poolsByKind[17] != nil && poolsByKind[21] != nil && poolsByKind[18] != nil
